@@ -297,6 +297,50 @@ def coq_z(n):
     return "(%d)%%Z" % n
 
 
+def build_model_runner():
+    """Extract the executable models (against the freshly generated facts) and compile the OCaml runner."""
+    oc = os.path.join(VERIF, "ocaml")
+    out = os.path.join(BUILD, "model_runner")
+    with Lock("extract"):
+        ok, mlog, dt = coq_make(["Base/Bytes.vo", "Parser/Pre.vo", "Facts/ParserConsts.vo", "Base/Tok.vo", "Inline/Css.vo"]
+                                if os.path.exists(os.path.join(COQ, "Base", "Tok.v")) else ["Base/Bytes.vo", "Parser/Pre.vo", "Facts/ParserConsts.vo"])
+        if not ok:
+            return None, mlog
+        rc, so, se, dt = run(["timeout", "600", "coqc", "-Q", COQ, "GV", os.path.join(COQ, "Extract", "Extract.v")], cwd=oc, timeout=630)
+        if rc != 0:
+            return None, so + se
+        rc, so, se, dt = run(["ocamlfind", "ocamlopt", "-w", "-a", "-o", out, "model.mli", "model.ml", "driver.ml"], cwd=oc, timeout=600)
+        if rc != 0:
+            return None, so + se
+    return out, ""
+
+
+def model_run(runner, requests, procs=16, timeout=900):
+    """requests: list of (fn, bytes). Returns list of bytes or None, in order."""
+    import concurrent.futures
+    shards = [list(range(k, len(requests), procs)) for k in range(procs)]
+
+    def work(idx):
+        inp = "".join("%s %s\n" % (requests[i][0], requests[i][1].hex()) for i in idx)
+        rc, so, se, dt = run(["bash", "-c", "ulimit -s unlimited 2>/dev/null; exec %s" % runner], input=inp, timeout=timeout)
+        lines = so.split("\n")
+        return idx, lines
+
+    out = [None] * len(requests)
+    with concurrent.futures.ThreadPoolExecutor(procs) as ex:
+        for idx, lines in ex.map(work, [s for s in shards if s]):
+            for i, line in zip(idx, lines):
+                line = line.strip()
+                if line and line not in ("NONE", "BAD"):
+                    try:
+                        out[i] = bytes.fromhex(line)
+                    except ValueError:
+                        out[i] = None
+                elif line == "":
+                    out[i] = b"" if len(lines) > idx.index(i) else None
+    return out
+
+
 # --------------------------------------------------------------------------- known findings
 
 def known_findings(pid):
